@@ -19,7 +19,7 @@ def split_script(sc):
 def check(tier, seed):
     res = C.Result('C10', tier, seed)
     res.rule = ('sequences of 2..6 requests (poll/set/set_mga/fire_and_forget of all kinds) on ONE server with per-request receiver behaviour incl. '
-                'surplus answers, truncated frames at the end of a request, timeouts, NAKs, failed sends; each request is then re-run alone on a '
+                'surplus answers, truncated frames at the end of a request, timeouts, NAKs, failed sends - a third of them on the real serial backend over a scripted line (one byte per read, bit rate as constructed or changed by set_baudrate) -; each request is then re-run alone on a '
                 'freshly set-up server facing the same receiver state (implementation-only differential: result, transmissions, reads) and the '
                 'whole sequence is compared with the model; non-trivial = sequence with >= 2 transmitting requests')
     with C.WorkDir('C10') as wd:
@@ -36,7 +36,10 @@ def check(tier, seed):
         for k in range(n):
             if k % 40 == 0:
                 reqs = S.all_requests(rng, mt, kt)
-            scs.append(S.scenario(rng, reqs, kt, n_req=rng.choice([2, 2, 3, 4, 6])))
+            sc = S.scenario(rng, reqs, kt, n_req=rng.choice([2, 2, 3, 4, 6]))
+            if k % 3 == 1:
+                sc = S.on_tty(rng, sc, 500)         # the same history on the real serial backend over a scripted line
+            scs.append(sc)
         # two response classes sharing one class/id in one history (library CFG-PRT/UART and an application-defined layout)
         pair = [r for r in reqs if r.label in ('UbxCfgPrtPoll', 'AppCfgPrtUsbPoll')]
         for _ in range(12 if tier == 'quick' else 300):
@@ -55,7 +58,7 @@ def check(tier, seed):
             future = [(ok, list(evs)) for ok, evs in sc['script']['attempts']]
             for idx, (rq, part) in enumerate(zip(sc['reqs'], parts)):
                 alone_script = {'pending': list(pending), 'attempts': [(ok, list(evs)) for ok, evs in future], 'idle': sc['script']['idle'], 'drain': sc['script'].get('drain')}
-                alone = Q.run_impl(alone_script, sc['retries'], sc['delay'], [(rq.op, rq.build)])
+                alone = Q.run_impl(alone_script, sc['retries'], sc['delay'], [(rq.op, rq.build)], backend=sc.get('backend', 'stub'), bauds=sc.get('bauds', (115200, None)))
                 if alone != part:
                     res.violation(f'request {idx + 1} of a sequence behaves differently from the same request on a fresh server',
                                   {'property': 'C10', 'input': desc, 'request_index': idx, 'request': f'{rq.op}:{rq.label}',
@@ -73,6 +76,7 @@ def check(tier, seed):
                     elif t.startswith('R'):
                         if pending:
                             pending.pop(0)
+        res.notes['on_serial_backend'] = sum(1 for sc in scs if sc.get('backend') == 'tty')
         res.compare(cases)
         res.oblige('correspondence request sequences (Tie A)', not res.disagreements)
         res.oblige('sequence-vs-fresh differential on the implementation', not res.violations)
